@@ -873,6 +873,37 @@ class SymArray:
     def append(self, v): self.a.append(v)
     def extend(self, v): self.a.extend(v)
     def tolist(self): return list(self.a)
+
+    @property
+    def itemsize(self):
+        return _ITEMSIZE[self.typecode]
+
+    def _octets(self, x):
+        n = self.itemsize
+        if not _sym(x) and x < 0:
+            x += 1 << (8 * n)
+        return [(x >> (8 * k)) & 0xFF for k in range(n)]          # little-endian (native)
+
+    def byteswap(self):
+        n = self.itemsize
+        if self.typecode in "bhilq" and n > 1:
+            raise Inconclusive("byteswap of signed multi-octet items is not modelled")
+        out = []
+        for x in self.a:
+            o = self._octets(x)[::-1]
+            v = 0
+            for k in range(n):
+                v = v + o[k] * (1 << (8 * k))
+            out.append(norm_int(v) if _sym(v) else v)
+        self.a = out
+
+    def tobytes(self):
+        from sxl.sbytes import _mk
+        octs = []
+        for x in self.a:
+            octs.extend(self._octets(x))
+        return _mk([norm_int(o) if _sym(o) else o for o in octs])
+
     def __eq__(self, o):
         if isinstance(o, SymArray): o = o.a
         if len(o) != len(self.a): return False
@@ -1098,8 +1129,120 @@ def _len(x):
     return len(x)
 
 
+_ITEMSIZE = {"b": 1, "B": 1, "h": 2, "H": 2, "i": 4, "I": 4, "l": 8, "L": 8, "q": 8, "Q": 8}
+
+
 def _array(typecode, init=()):
+    if isinstance(init, (bytes, bytearray, SBytes)):
+        # array(typecode, bytes) == frombytes: native (little-endian) items
+        n = _ITEMSIZE.get(typecode)
+        if n is None or typecode in "bhilq" and n > 1:
+            raise Inconclusive("array(%r, bytes) is not modelled" % typecode)
+        octs = list(init)
+        if len(octs) % n:
+            raise ValueError("bytes length not a multiple of item size")
+        items = []
+        for i in range(0, len(octs), n):
+            v = 0
+            for k in range(n):
+                v = v + octs[i + k] * (1 << (8 * k))
+            if typecode == "b":
+                v = v - 256 * (v >> 7)
+            items.append(norm_int(v) if _sym(v) else v)
+        return SymArray(typecode, items)
     return SymArray(typecode, init)
+
+
+# ---- struct (standard sizes: byte-order prefix < > ! =; native '@' alignment is refused)
+_STRUCT_CODES = {"x": (1, None), "c": (1, None), "b": (1, True), "B": (1, False), "?": (1, False), "h": (2, True), "H": (2, False), "i": (4, True), "I": (4, False),
+                 "l": (4, True), "L": (4, False), "q": (8, True), "Q": (8, False)}
+
+
+def _struct_items(fmt):
+    import re
+    if isinstance(fmt, bytes):
+        fmt = fmt.decode("ascii")
+    fmt = fmt.replace(" ", "")
+    if not fmt or fmt[0] not in "<>!=":
+        raise Inconclusive("struct format %r: native size / alignment is not modelled" % fmt)
+    big = fmt[0] in ">!"
+    items = []
+    for cnt, code in re.findall(r"(\d*)([a-zA-Z?])", fmt[1:]):
+        n = int(cnt) if cnt else 1
+        if code == "s":
+            items.append(("s", n, None))
+        elif code in _STRUCT_CODES:
+            for _ in range(n):
+                items.append((code,) + _STRUCT_CODES[code])
+        else:
+            raise Inconclusive("struct code %r is not modelled" % code)
+    return big, items
+
+
+def _struct_calcsize(fmt):
+    return sum(it[1] for it in _struct_items(fmt)[1])
+
+
+def _struct_unpack_from(fmt, buffer, offset=0):
+    import struct as _st
+    if not isinstance(buffer, SBytes):
+        return _st.unpack_from(fmt, buffer, offset)
+    big, items = _struct_items(fmt)
+    size = sum(it[1] for it in items)
+    octs = list(buffer)
+    if offset < 0:
+        offset += len(octs)
+    if offset < 0 or offset + size > len(octs):
+        raise _st.error("unpack_from requires a buffer of at least %d bytes for unpacking %d bytes at offset %d (actual buffer size is %d)" % (offset + size, size, offset, len(octs)))
+    out = []
+    pos = offset
+    for code, n, signed in items:
+        chunk = octs[pos:pos + n]
+        pos += n
+        if code == "x":
+            continue
+        if code in ("s", "c"):
+            from sxl.sbytes import _mk
+            out.append(_mk(chunk))
+            continue
+        v = int_from_bytes(SBytes(chunk) if builtins_any(_sym(o) for o in chunk) else bytes(chunk), "big" if big else "little", signed=bool(signed))
+        if code == "?":
+            v = as_cond(v != 0)
+        out.append(v)
+    return tuple(out)
+
+
+def _struct_unpack(fmt, buffer):
+    import struct as _st
+    if not isinstance(buffer, SBytes):
+        return _st.unpack(fmt, buffer)
+    if len(buffer) != _struct_calcsize(fmt):
+        raise _st.error("unpack requires a buffer of %d bytes" % _struct_calcsize(fmt))
+    return _struct_unpack_from(fmt, buffer, 0)
+
+
+def _struct_pack(fmt, *vals):
+    import struct as _st
+    if not builtins_any(_sym(v) or isinstance(v, SBytes) for v in vals):
+        return _st.pack(fmt, *vals)
+    big, items = _struct_items(fmt)
+    from sxl.sbytes import _mk
+    octs = []
+    vi = 0
+    for code, n, signed in items:
+        if code == "x":
+            octs.extend([0] * n)
+            continue
+        v = vals[vi]
+        vi += 1
+        if code in ("s", "c"):
+            b = list(v)[:n]
+            octs.extend(b + [0] * (n - len(b)))
+            continue
+        octs.extend(list(_int_to_bytes(v, n, "big" if big else "little", signed=bool(signed))))
+    if vi != len(vals):
+        raise _st.error("pack expected %d items for packing (got %d)" % (vi, len(vals)))
+    return _mk(octs)
 
 
 def _print(*a, **k):
@@ -1124,6 +1267,10 @@ def _init_dispatch():
     import secrets
     _DISPATCH[secrets.token_bytes] = _token_bytes
     _DISPATCH[_array_mod.array] = _array
+    import struct as _struct_mod
+    _DISPATCH[_struct_mod.unpack] = _struct_unpack
+    _DISPATCH[_struct_mod.unpack_from] = _struct_unpack_from
+    _DISPATCH[_struct_mod.pack] = _struct_pack
     import math
     from sxl import sfloat
     _DISPATCH[math.copysign] = sfloat.copysign
